@@ -37,11 +37,11 @@ MUTANTS = [
         "new": "if not (idx <= to_idx)",
     },
     {
-        "name": "C13-can-continue-ignores-incomplete",
+        "name": "C13-can-continue-skips-completion",
         "property": "C13",
         "file": "src/fandango/language/grammar/parser/iterative_parser.py",
-        "old": "                lambda state: state.is_incomplete or not state.finished(),",
-        "new": "                lambda state: not state.finished(),",
+        "old": "        for state in table[-1]:\n            if state.finished():\n                self.complete(state, table, self._table_idx)\n\n        return any(",
+        "new": "        return any(",
     },
     {
         "name": "C13-incomplete-idx-not-reset",
